@@ -251,6 +251,51 @@ theorem encode_converted_commit {nameOf : J → String} {ofName : String → Opt
   simp only [Option.bind_eq_bind, Option.bind_some, Option.pure_def, Option.some.injEq, Prod.mk.injEq, true_and]
   exact congrArg (fun l => padToByte l.flatten) h2
 
+/-- **an accepting run of `decodeCommit`, stage by stage** (converse of `decodeCommit_inv`) -/
+theorem decodeCommit_intro (tb : Tables) (prog : List Bool) (ns : List (WNode tb.J))
+    (rest : List Bool) (plan : Plan) (arrows : Array (BM4.Ty × BM4.Ty)) (an : Array Annot) (cm : Array Nat)
+    (hp : decProgram tb.jc prog = .ok (ns, rest)) (hcl : closeOk rest = true) (hne : ns ≠ [])
+    (hcan : canonicalOk ns.toArray = true) (hcv : convert tb.nameOf ns.toArray = .ok plan)
+    (hinf : infer tb.jetTy plan true = .ok arrows)
+    (han : annots tb.jetCmr tb.jetCost plan arrows (fun _ => none) = some an)
+    (hsh : sharedOk plan an = true) (hcm : cmrs tb.jetCmr plan = some cm) :
+    decodeCommit tb prog = .ok (plan, cm) := by
+  unfold decodeCommit
+  rw [hp]
+  have hsz : ¬ ns.toArray.size = 0 := by
+    simp only [List.size_toArray]
+    exact fun h => hne (List.length_eq_zero_iff.mp h)
+  simp only [bind, Except.bind, pure, Except.pure, throw, throwThe, MonadExceptOf.throw, hcl, hcan,
+    Bool.not_true, Bool.false_eq_true, if_false, hsz, hcv, hinf, han, hcm]
+  split
+  · next hne' =>
+    exfalso
+    simp only [Bool.not_eq_true', Bool.not_eq_false] at hne'
+    have : sharedOk plan an = false := hne'
+    rw [hsh] at this; cases this
+  · rfl
+
+/-- **what an accepting run of `decodeCommit` establishes**: the hypotheses of
+`encode_converted_commit` except the two that the decoder does not check (no binary disconnect, the
+root's identity root fresh) -/
+theorem decodeCommit_facts (tb : Tables) (prog : List Bool) (p : Plan) (cm : Array Nat)
+    (h : decodeCommit tb prog = .ok (p, cm)) :
+    ∃ ns rest arrows an,
+      prog = encProgram tb.jc ns ++ rest ∧ closeOk rest = true ∧
+      ns ≠ [] ∧ ns.length < 2 ^ 32 ∧ NodesOk 0 ns ∧ convert tb.nameOf ns.toArray = .ok p ∧
+      DecFacts0 tb.nameOf ns.toArray p an ∧ WellIdx (shapes ns.toArray) ∧
+      0 < ns.toArray.size ∧ hiddenAt ns.toArray (ns.toArray.size - 1) = none ∧
+      canonicalOk ns.toArray = true ∧
+      infer tb.jetTy p true = .ok arrows ∧
+      annots tb.jetCmr tb.jetCost p arrows (fun _ => none) = some an ∧
+      sharedOk p an = true ∧ cmrs tb.jetCmr p = some cm := by
+  obtain ⟨ns, rest, arrows, an, hp, hcl, hcan, hcv, hinf, han, hsh, hcm⟩ := decodeCommit_inv tb prog p cm h
+  obtain ⟨hprog, hne, hlt, hok⟩ := decProgram_canonical tb.jc prog ns rest hp
+  have hansz := annots_size _ _ _ _ _ _ han
+  obtain ⟨F, hw, hpos, hroot⟩ := decFacts0_mk tb.nameOf ns p an hne hok hcv hansz
+  exact ⟨ns, rest, arrows, an, hprog, hcl, hne, hlt, hok, hcv, F, hw, hpos, hroot, hcan, hinf, han, hsh, hcm⟩
+
 #print axioms encode_converted_commit
+#print axioms decodeCommit_intro
 
 end Prog
